@@ -59,5 +59,6 @@ Definition f_same (a b : float) : bool := sf_eqb (Prim2SF a) (Prim2SF b).
   c_eps6 := 1e-6; c_eps5 := 0.00001; c_half := 0.5; c_two := 2; c_001 := 0.01;
   c_dist_a := -0.15; c_dist_b := 0.3;
   c_maxfloat := 0x1.fffffffffffffp+1023;
+  c_tol_abs := 1.5e-8; c_tol_rel := 1e-9;
   nsame := f_same;
 |}.
